@@ -38,6 +38,8 @@ type Val struct {
 	Off, Len, Cap int
 	// Tag names an opaque standard-library object (a base64 encoding)
 	Tag string
+	// Fields: the constant fields of a struct value read from a table literal
+	Fields map[int]Val
 }
 
 func (v Val) String() string {
@@ -227,6 +229,13 @@ func (e *Evaluator) eval(fn *ssa.Function, args []Val, env Env, depth int) []Out
 					if e.Bytes && !e.storeBytes(vals, x) {
 						e.impure = true
 					}
+					// a struct value with known constant fields stored into a local: the local's
+					// pointer carries the fields (read back through FieldAddr + load)
+					if al, isAl := x.Addr.(*ssa.Alloc); isAl {
+						if sv := e.get(vals, x.Val); sv.Fields != nil {
+							vals[al] = Val{K: Ref, Fields: sv.Fields}
+						}
+					}
 					if fa, ok := x.Addr.(*ssa.FieldAddr); ok {
 						if st, ok := fa.X.Type().Underlying().(*types.Pointer).Elem().Underlying().(*types.Struct); ok {
 							vals[storeKey{st.Field(fa.Field).Name()}] = e.get(vals, x.Val)
@@ -309,6 +318,14 @@ func (e *Evaluator) step(vals map[ssa.Value]Val, v ssa.Value, pred *ssa.BasicBlo
 		return binop(x.Op, a, b, x.X.Type(), x.Type())
 	case *ssa.UnOp:
 		if x.Op == token.MUL {
+			if fa, isFA := x.X.(*ssa.FieldAddr); isFA {
+				if base := e.get(vals, fa.X); base.Fields != nil {
+					if fv, ok := base.Fields[fa.Field]; ok {
+						return fv
+					}
+					return zeroVal(x.Type())
+				}
+			}
 			// package-level error variable (errFoo = errors.New(...)): a definite error
 			if g, ok := x.X.(*ssa.Global); ok && isErrIface(g.Type().(*types.Pointer).Elem()) {
 				return Val{K: Err}
@@ -360,6 +377,16 @@ func (e *Evaluator) step(vals map[ssa.Value]Val, v ssa.Value, pred *ssa.BasicBlo
 		if a := e.get(vals, x.X); a.K == Ref || a.K == Nil {
 			if _, isStr := x.X.Type().Underlying().(*types.Basic); !isStr {
 				return a
+			}
+		}
+		return Val{}
+	case *ssa.Field:
+		if a := e.get(vals, x.X); a.Fields != nil {
+			if fv, ok := a.Fields[x.Field]; ok {
+				return fv
+			}
+			if st, ok := x.X.Type().Underlying().(*types.Struct); ok {
+				return zeroVal(st.Field(x.Field).Type())
 			}
 		}
 		return Val{}
@@ -524,10 +551,10 @@ func GlobalMap(g *ssa.Global) (map[string]Val, bool) {
 			}
 			v, ok2 := x.Value.(*ssa.Const)
 			if kv != nil && !ok2 {
-				// a value we do not model (struct literal, slice): the key is still known to be
-				// present, which is what comma-ok membership tests need
+				// a struct literal: its constant fields; anything else: the key is still known
+				// to be present, which is what comma-ok membership tests need
 				keyConsts[kv.ExactString()] = kv
-				tbl[kv.ExactString()] = Val{}
+				tbl[kv.ExactString()] = structLiteral(x.Value)
 				continue
 			}
 			if kv == nil || !ok2 {
@@ -980,3 +1007,46 @@ func wrap(v Val, t types.Type) Val {
 // TupleKey addresses component idx of a tuple-valued instruction (call,
 // comma-ok lookup, type assertion) for use as an Env key.
 func TupleKey(v ssa.Value, idx int) ssa.Value { return tupleKey{v, idx} }
+
+// structLiteral reads the value of a table entry that is a struct literal
+// (`*t` of a local composite literal whose fields were stored with constants):
+// the constant fields by index. Other values give the unknown value.
+func structLiteral(v ssa.Value) Val {
+	ld, ok := v.(*ssa.UnOp)
+	if !ok || ld.Op != token.MUL {
+		return Val{}
+	}
+	al, ok := ld.X.(*ssa.Alloc)
+	if !ok {
+		return Val{}
+	}
+	if _, isStruct := al.Type().Underlying().(*types.Pointer).Elem().Underlying().(*types.Struct); !isStruct {
+		return Val{}
+	}
+	out := Val{Fields: map[int]Val{}}
+	for _, ref := range *al.Referrers() {
+		fa, isFA := ref.(*ssa.FieldAddr)
+		if !isFA {
+			continue
+		}
+		for _, r2 := range *fa.Referrers() {
+			st, isSt := r2.(*ssa.Store)
+			if !isSt || st.Addr != ssa.Value(fa) {
+				continue
+			}
+			switch c := st.Val.(type) {
+			case *ssa.Const:
+				if c.Value == nil {
+					out.Fields[fa.Field] = Val{K: Nil}
+				} else {
+					out.Fields[fa.Field] = Val{K: Const, C: c.Value}
+				}
+			case *ssa.Function:
+				out.Fields[fa.Field] = Val{K: Ref, Fn: c}
+			default:
+				out.Fields[fa.Field] = Val{}
+			}
+		}
+	}
+	return out
+}
